@@ -157,6 +157,56 @@ func genC04(c *Ctx) {
 				return crypto.IsBLSSignatureIdentity(s)
 			}()))
 		}
+		// nested aggregation of signatures (groups may sum to the identity signature), and the identity
+		// signature itself as a list element at each position
+		{
+			cutS := 1 + c.intn(size)
+			agg1 := guard(func() string {
+				a, e1 := crypto.AggregateBLSSignatures(sigs[:cutS])
+				if e1 != nil {
+					return "err " + errClass(e1)
+				}
+				if cutS == size {
+					return "ok " + hx(a)
+				}
+				b, e2 := crypto.AggregateBLSSignatures(sigs[cutS:])
+				if e2 != nil {
+					return "err " + errClass(e2)
+				}
+				r, e3 := crypto.AggregateBLSSignatures([]crypto.Signature{b, a})
+				if e3 != nil {
+					return "err " + errClass(e3)
+				}
+				return "ok " + hx(r)
+			})
+			c.Case("agg-sig-nested", fmt.Sprintf("sig.expect 0x%s %s", sum.Text(16), hx(hp)), agg1)
+			idSig := make([]byte, 48)
+			idSig[0] = 0xc0
+			pos := c.intn(size + 1)
+			withId := append(append(append([]crypto.Signature{}, sigs[:pos]...), idSig), sigs[pos:]...)
+			c.Case("agg-sig-with-identity-element", fmt.Sprintf("sig.expect 0x%s %s", sum.Text(16), hx(hp)), guard(func() string {
+				r, err := crypto.AggregateBLSSignatures(withId)
+				if err != nil {
+					return "err " + errClass(err)
+				}
+				return "ok " + hx(r)
+			}))
+			// a cancelling pair aggregated first, then used as an element
+			kk := c.randScalar()
+			s1, _ := skFromInt(kk).Sign(msg, h)
+			s2, _ := skFromInt(new(big.Int).Sub(blsR, kk)).Sign(msg, h)
+			c.Case("agg-sig-cancelled-group-element", fmt.Sprintf("sig.expect 0x%s %s", sum.Text(16), hx(hp)), guard(func() string {
+				z, err := crypto.AggregateBLSSignatures([]crypto.Signature{s1, s2})
+				if err != nil {
+					return "err " + errClass(err)
+				}
+				r, err := crypto.AggregateBLSSignatures(append([]crypto.Signature{sigs[0], z}, sigs[1:]...))
+				if err != nil {
+					return "err " + errClass(err)
+				}
+				return "ok " + hx(r)
+			}))
+		}
 		// a malformed signature inside the list
 		if it%5 == 0 {
 			bad := append([]crypto.Signature{}, sigs...)
